@@ -20,7 +20,7 @@ PLAN = dict(
         "known finding C16 update-allotment assertion: with max_allowed_parallelism 1 the unchanged library trips `assigned == max_workers` in market::update_allotment "
         "(debug builds); the assertion-enabled leg therefore draws 1 as 2 (--no-soft0, counted as n_excluded), the release leg keeps 1; witness leg `drive --witness2`",
         "every DEADLOCK / SPIN-FIXPOINT is a violation (a worker blocked in execute() on a full arena whose occupants left on recall was a genuine defect, repaired in "
-        "/repo 5444123; the directed leg `drive --witness3` keeps that shape covered"],
+        "/repo ('fix: a thread blocked in task_arena::execute was not woken when a worker gave back its slot'); the directed leg `drive --witness3` keeps that shape covered"],
     floor=dict(quick=500, thorough=5000),
     tiers=dict(
         quick=[det("rel", H, "cs-rel", 16, 170, 4, tso=True, time_cap=20),
